@@ -138,7 +138,11 @@ static EthernetII* build_packet(const vh::Json& sc, vh::Rng& rng, Vals& v, int& 
         v.icmp_id = rng.below(65536); v.icmp_seq = rng.below(65536); v.flags = rng.coin() ? 128 : 129;
         ICMPv6* i = new ICMPv6((ICMPv6::Types)v.flags); i->identifier((uint16_t)v.icmp_id); i->sequence((uint16_t)v.icmp_seq); tail->inner_pdu(i); tail = i;
     }
-    if (!v.payload.empty()) tail->inner_pdu(new RawPDU(v.payload.begin(), v.payload.end()));
+    // the payload layer gets its bytes through the constructor, through the vector setter or through the iterator setter (over a
+    // layer that held something else before)
+    if (!v.payload.empty()) { int how = (int)rng.below(3); RawPDU* r = how == 0 ? new RawPDU(v.payload.begin(), v.payload.end()) : new RawPDU("previous contents");
+        if (how == 1) r->payload(v.payload); else if (how == 2) r->payload(v.payload.begin(), v.payload.end());
+        tail->inner_pdu(r); }
     if (sc["pay"].str() == "cksum0") {
         // the one's-complement sum of everything the checksum covers comes out as 0xffff, i.e. the computed checksum is 0
         // (RFC 768: UDP then transmits 0xffff): with the last payload word 0 the field reads C, so the word that makes it 0 is C
